@@ -52,6 +52,7 @@ type callStep struct {
 	URL   int    `json:"url"` // index into urlClasses (0 = none)
 	Skip  bool   `json:"skip"`
 	Algo  string `json:"algo"`
+	Doc   int    `json:"doc"` // >= 0: this call distils another document than the group's (interleaved unrelated calls)
 }
 
 func stepsOf(c Case) []callStep {
@@ -61,7 +62,10 @@ func stepsOf(c Case) []callStep {
 		if !ok {
 			continue
 		}
-		s := callStep{Entry: "apply", Algo: "prevnext"}
+		s := callStep{Entry: "apply", Algo: "prevnext", Doc: -1}
+		if v, ok := m["doc"].(float64); ok {
+			s.Doc = int(v)
+		}
 		if v, ok := m["entry"].(string); ok {
 			s.Entry = v
 		}
@@ -291,14 +295,25 @@ func runCalls(c Case, e *env) []Event {
 	}
 	steps := stepsOf(c)
 	if len(steps) == 0 {
-		steps = []callStep{{Entry: "apply", Algo: "prevnext"}}
+		steps = []callStep{{Entry: "apply", Algo: "prevnext", Doc: -1}}
 	}
 	root, rootDesc := makeRoot(rootKind, page, r, g)
+	mainRoot, mainPage, mainDoc := root, page, docid
+	otherRoots := map[int]*html.Node{}
+	otherPages := map[int]string{}
 	optsCache := map[string]*distiller.Options{}
 	var evs []Event
 	var tmpFile string
 	for k, s := range steps {
 		run := c.ID*1000 + k + runoff
+		root, page, docid = mainRoot, mainPage, mainDoc
+		if s.Doc >= 0 && s.Doc != mainDoc {
+			if _, ok := otherRoots[s.Doc]; !ok {
+				otherPages[s.Doc] = richDoc(s.Doc, newDocGen(e.seed, s.Doc))
+				otherRoots[s.Doc], _ = makeRoot("document", otherPages[s.Doc], r, g)
+			}
+			root, page, docid = otherRoots[s.Doc], otherPages[s.Doc], s.Doc
+		}
 		key := fmt.Sprintf("%v|%d|%d|%v|%s", s.Nil, s.Log, s.URL, s.Skip, s.Algo)
 		opts, ok := optsCache[key]
 		if !ok {
@@ -308,6 +323,10 @@ func runCalls(c Case, e *env) []Event {
 		entry := s.Entry
 		if rootKind != "document" {
 			entry = "apply"
+		}
+		suppliedURL := ""
+		if opts != nil && opts.OriginalURL != nil {
+			suppliedURL = opts.OriginalURL.String()
 		}
 		treeBefore := snapshotTree(root)
 		optsBefore := snapshotOpts(opts)
@@ -392,7 +411,7 @@ func runCalls(c Case, e *env) []Event {
 			switch {
 			case res.URL == "":
 				obs["urlfield"] = "empty"
-			case opts != nil && opts.OriginalURL != nil && res.URL == opts.OriginalURL.String():
+			case s.URL > 0 && s.URL < len(urlClasses) && res.URL == suppliedURL:
 				obs["urlfield"] = "same"
 			case entry == "url" && strings.HasPrefix(res.URL, "http://127.0.0.1"):
 				obs["urlfield"] = "same"
